@@ -107,6 +107,9 @@ Definition holds (k : case) (o : obs) : list string :=
   | Ok r =>
       if negb (o_init o) then ["init_accepts"%string] else
       let w := named_file k r in
+      (* the request is handled iff the matching rule says so (a handler that declines a request for an existing file
+         does not serve "the regular file located at root_dir/<decoded remaining path>") *)
+      (if Bool.eqb (o_matches o) (matches (spec_ctx (k_cfg k) r (eff_uri k))) then [] else ["handled_iff_matching_rule"%string]) ++
       (* confined: nothing but the named file is ever opened; nothing at all when the request is not handled *)
       (if subset_of_one (o_opened o) w && (o_matches o || is_nil (o_opened o)) then [] else ["confined"%string]) ++
       (if c_filemode (k_cfg k) && negb (forallb (eqb_str (c_target (k_cfg k))) (o_opened o))
